@@ -305,6 +305,7 @@ type transformationKey struct {
 }
 
 type transformationValue struct {
-	arg  string
-	errs []error
+	input string
+	arg   string
+	errs  []error
 }
